@@ -1,1 +1,748 @@
-//! C32: not implemented yet.
+//! C32 (PTP half) — `statime_base::Timestamp` wraps modulo 2^128, `Duration` saturates, the
+//! f64 conversions preserve sign / saturate / round-trip, nothing panics.
+//!
+//! Engine E-IN. The crate has no probe include for `time_types` and the integer fields are
+//! private, so raw values are *written* with `transmute` (both types are single-field
+//! wrappers of a 128-bit integer) and *read back* through the derived / hand-written `Hash`
+//! impls with a capturing `Hasher`; every constructed input is read back before use, so a
+//! layout surprise would be a loud machinery failure and not a verdict.
+//!
+//! Reference arithmetic avoids the operations under test: modular results are computed by
+//! magnitude case analysis with plain (non-wrapping) u128 arithmetic, saturation by explicit
+//! range tests, products by magnitude / limit division.
+extern crate std;
+use std::prelude::v1::*;
+
+use core::hash::{Hash, Hasher};
+use std::collections::BTreeSet;
+use std::sync::Mutex;
+use std::sync::atomic::{AtomicBool, AtomicU64, Ordering};
+use std::{format, vec};
+
+use super::common::{self, Ctx};
+use crate::{Duration, TAI, Timestamp, UTC};
+
+// ---------------------------------------------------------------------------------
+// raw access
+// ---------------------------------------------------------------------------------
+
+struct Cap(Option<u128>, u32);
+impl Hasher for Cap {
+    fn finish(&self) -> u64 {
+        0
+    }
+    fn write(&mut self, bytes: &[u8]) {
+        // integer Hash impls funnel into write_{u,i}128 -> write(ne_bytes) by default
+        if bytes.len() == 16 {
+            let mut b = [0u8; 16];
+            b.copy_from_slice(bytes);
+            self.0 = Some(u128::from_ne_bytes(b));
+        }
+        self.1 += 1;
+    }
+    fn write_u128(&mut self, i: u128) {
+        self.0 = Some(i);
+        self.1 += 1;
+    }
+    fn write_i128(&mut self, i: i128) {
+        self.0 = Some(i as u128);
+        self.1 += 1;
+    }
+}
+
+fn draw(d: Duration) -> i128 {
+    let mut c = Cap(None, 0);
+    d.hash(&mut c);
+    assert_eq!(c.1, 1, "Duration hashes exactly one integer");
+    c.0.expect("Duration hash did not expose its i128") as i128
+}
+
+fn traw<A>(t: Timestamp<A>) -> u128 {
+    let mut c = Cap(None, 0);
+    t.hash(&mut c);
+    assert_eq!(c.1, 1, "Timestamp hashes exactly one integer");
+    c.0.expect("Timestamp hash did not expose its u128")
+}
+
+fn dmk(v: i128) -> Duration {
+    // SAFETY: `Duration` is a single-field tuple struct around an i128; verified by read-back.
+    let d: Duration = unsafe { core::mem::transmute::<i128, Duration>(v) };
+    assert_eq!(draw(d), v, "transmute/readback mismatch (machinery)");
+    d
+}
+
+fn tmk(v: u128) -> Timestamp<TAI> {
+    // SAFETY: `Timestamp<A>` is (u128, PhantomData<A>); verified by read-back.
+    let t: Timestamp<TAI> = unsafe { core::mem::transmute::<u128, Timestamp<TAI>>(v) };
+    assert_eq!(traw(t), v, "transmute/readback mismatch (machinery)");
+    t
+}
+
+fn tmk_utc(v: u128) -> Timestamp<UTC> {
+    let t: Timestamp<UTC> = unsafe { core::mem::transmute::<u128, Timestamp<UTC>>(v) };
+    assert_eq!(traw(t), v, "transmute/readback mismatch (machinery)");
+    t
+}
+
+// ---------------------------------------------------------------------------------
+// reference arithmetic (no wrapping / saturating helpers of std)
+// ---------------------------------------------------------------------------------
+
+const HALF: u128 = 1u128 << 127;
+
+/// The unique d in [-2^127, 2^127) with t + d == u (mod 2^128).
+fn ref_shortest(t: u128, u: u128) -> i128 {
+    if u >= t {
+        let m = u - t;
+        if m < HALF { m as i128 } else { -((u128::MAX - m) as i128) - 1 }
+    } else {
+        let m = t - u; // 1 ..= 2^128-1
+        if m <= HALF { -((m - 1) as i128) - 1 } else { ((u128::MAX - m) + 1) as i128 }
+    }
+}
+
+fn ref_ts_add(t: u128, d: i128) -> u128 {
+    if d >= 0 {
+        let x = d as u128;
+        if x <= u128::MAX - t { t + x } else { x - (u128::MAX - t) - 1 }
+    } else {
+        let x = d.unsigned_abs();
+        if x <= t { t - x } else { u128::MAX - (x - t) + 1 }
+    }
+}
+
+fn ref_ts_sub(t: u128, d: i128) -> u128 {
+    if d == i128::MIN {
+        // t - (-2^127) = t + 2^127
+        if t < HALF { t + HALF } else { t - HALF }
+    } else {
+        ref_ts_add(t, -d)
+    }
+}
+
+/// (value, needed saturation)
+fn ref_sat_add(a: i128, b: i128) -> (i128, bool) {
+    if b > 0 && a > i128::MAX - b {
+        (i128::MAX, true)
+    } else if b < 0 && a < i128::MIN - b {
+        (i128::MIN, true)
+    } else {
+        (a + b, false)
+    }
+}
+
+fn ref_sat_sub(a: i128, b: i128) -> (i128, bool) {
+    if b < 0 && a > i128::MAX + b {
+        (i128::MAX, true)
+    } else if b > 0 && a < i128::MIN + b {
+        (i128::MIN, true)
+    } else {
+        (a - b, false)
+    }
+}
+
+fn ref_sat_mul(a: i128, k: i128) -> (i128, bool) {
+    if a == 0 || k == 0 {
+        return (0, false);
+    }
+    let neg = (a < 0) != (k < 0);
+    let (ma, mk) = (a.unsigned_abs(), k.unsigned_abs());
+    let limit = if neg { HALF } else { HALF - 1 };
+    if ma > limit / mk {
+        return (if neg { i128::MIN } else { i128::MAX }, true);
+    }
+    let m = ma * mk; // <= limit
+    if neg {
+        if m == HALF { (i128::MIN, false) } else { (-(m as i128), false) }
+    } else {
+        (m as i128, false)
+    }
+}
+
+/// floor and ceil of the exact quotient (k != 0), saturated; (lo, hi, needed saturation)
+fn ref_quot(a: i128, k: i128) -> (i128, i128, bool) {
+    if a == i128::MIN && k == -1 {
+        return (i128::MAX, i128::MAX, true);
+    }
+    let q = a / k; // truncation, cannot overflow here
+    let r = a % k;
+    if r == 0 {
+        (q, q, false)
+    } else if (a < 0) != (k < 0) {
+        (q - 1, q, false) // exact quotient is negative: trunc is the ceiling
+    } else {
+        (q, q + 1, false)
+    }
+}
+
+// ---------------------------------------------------------------------------------
+// boundary sets
+// ---------------------------------------------------------------------------------
+
+fn b_i128() -> Vec<i128> {
+    let mut s = BTreeSet::new();
+    for k in 0..=126u32 {
+        let pw = 1i128 << k;
+        for d in [-1i128, 0, 1] {
+            s.insert(pw + d);
+            s.insert(-(pw + d));
+        }
+    }
+    for v in [
+        0i128, 3, 7, 10, 1_000_000_000, i128::MAX, i128::MAX - 1, i128::MIN, i128::MIN + 1, i128::MIN + 2,
+        i128::MAX / 2, i128::MIN / 2, i128::MAX / 3, (i64::MAX as i128) << 64, (i64::MIN as i128) << 64,
+        ((i64::MAX as i128) << 64) | (u64::MAX as i128), 0x1234_5678_9ABC_DEF0_0FED_CBA9_8765_4321,
+        -0x1234_5678_9ABC_DEF0_0FED_CBA9_8765_4321, 1i128 << 64, (1i128 << 64) * 86400, 37i128 << 64,
+    ] {
+        s.insert(v);
+    }
+    s.into_iter().collect()
+}
+
+fn b_u128() -> Vec<u128> {
+    let mut s = BTreeSet::new();
+    s.insert(0u128);
+    s.insert(u128::MAX);
+    for k in 0..=127u32 {
+        let pw = 1u128 << k;
+        s.insert(pw);
+        s.insert(pw - 1);
+        s.insert(pw + 1);
+        s.insert(u128::MAX - pw);
+        s.insert(u128::MAX - pw + 1);
+    }
+    for v in [3u128, 1_700_000_000u128 << 64, (1_700_000_000u128 << 64) + (1u128 << 63), HALF - 2, HALF + 2, u128::MAX - 1,
+              (u64::MAX as u128) << 64, 0xFEDC_BA98_7654_3210_0123_4567_89AB_CDEF] {
+        s.insert(v);
+    }
+    s.into_iter().collect()
+}
+
+fn b_f64() -> Vec<f64> {
+    let mut bits: BTreeSet<u64> = BTreeSet::new();
+    let mut put = |x: f64| {
+        if x.is_finite() {
+            bits.insert(x.to_bits());
+            bits.insert((-x).to_bits());
+        }
+    };
+    for b in 0..=0x7FEu64 {
+        put(f64::from_bits(b << 52));
+        put(f64::from_bits((b << 52) + 1));
+        if b > 0 {
+            put(f64::from_bits((b << 52) - 1));
+        }
+    }
+    for k in 0..52u32 {
+        put(f64::from_bits(1u64 << k));
+    }
+    let two63 = 9223372036854775808.0f64;
+    for base in [0.0f64, 0.5, 1.0, 1.5, 37.0, 1e9, 1.7e9, two63 / 2.0, two63, two63 * 2.0, 1e19, 1e40, 1e300] {
+        let mut up = base;
+        let mut down = base;
+        for _ in 0..6 {
+            put(up);
+            put(down);
+            up = f64::from_bits(up.to_bits() + 1);
+            if down > 0.0 {
+                down = f64::from_bits(down.to_bits() - 1);
+            }
+        }
+    }
+    for x in [0.1, 0.2, 0.3, 1e-3, 1e-6, 1e-9, 1e-12, 5.421010862427522e-20, 2.710505431213761e-20, 1e-25, 3.141592653589793,
+              f64::MAX, f64::MIN_POSITIVE, f64::EPSILON, 0.999999999, 123456.789] {
+        put(x);
+    }
+    bits.into_iter().map(f64::from_bits).collect()
+}
+
+fn scal_signed(bits: u32) -> Vec<i128> {
+    let mut s = BTreeSet::new();
+    let min = -(1i128 << (bits - 1));
+    let max = (1i128 << (bits - 1)) - 1;
+    for k in 0..bits {
+        for d in [-1i128, 0, 1] {
+            for v in [(1i128 << k) + d, -((1i128 << k) + d)] {
+                if v >= min && v <= max {
+                    s.insert(v);
+                }
+            }
+        }
+    }
+    for v in [min, min + 1, max, max - 1, 0, 3, -3, 10, 1000, -1000] {
+        if v >= min && v <= max {
+            s.insert(v);
+        }
+    }
+    s.into_iter().collect()
+}
+
+fn scal_unsigned(bits: u32) -> Vec<i128> {
+    let mut s = BTreeSet::new();
+    let max = (1i128 << bits) - 1;
+    for k in 0..=bits {
+        for d in [-1i128, 0, 1] {
+            let v = (1i128 << k) + d;
+            if v >= 0 && v <= max {
+                s.insert(v);
+            }
+        }
+    }
+    for v in [0, 3, 10, 1000, max, max - 1] {
+        if v <= max {
+            s.insert(v);
+        }
+    }
+    s.into_iter().collect()
+}
+
+// ---------------------------------------------------------------------------------
+// judging
+// ---------------------------------------------------------------------------------
+
+#[derive(Default)]
+struct St {
+    evals: AtomicU64,
+    exact: AtomicU64,
+    saturated: AtomicU64,
+    panics: AtomicU64,
+    era_cross: AtomicU64,
+    neg_diff: AtomicU64,
+    pos_diff: AtomicU64,
+}
+
+static RECORD: AtomicBool = AtomicBool::new(false);
+static OBS: Mutex<Vec<String>> = Mutex::new(Vec::new());
+
+/// values are carried as u128 bit patterns; `signed` only affects printing
+fn show(v: u128, signed: bool) -> String {
+    if signed { format!("{}", v as i128) } else { format!("{v}") }
+}
+
+#[inline]
+fn judge(ctx: &Ctx, st: &St, fam: &str, op: &str, a: u128, b: u128, got: Result<u128, String>, lo: u128, hi: u128, signed: bool, overflow: bool) {
+    st.evals.fetch_add(1, Ordering::Relaxed);
+    if overflow {
+        st.saturated.fetch_add(1, Ordering::Relaxed);
+    } else {
+        st.exact.fetch_add(1, Ordering::Relaxed);
+    }
+    let ok = match &got {
+        Ok(g) => {
+            if signed { (lo as i128) <= (*g as i128) && (*g as i128) <= (hi as i128) } else { *g == lo }
+        }
+        Err(_) => false,
+    };
+    let w = if lo == hi { show(lo, signed) } else { format!("{}..={}", show(lo, signed), show(hi, signed)) };
+    if RECORD.load(Ordering::Relaxed) {
+        let g = match &got {
+            Ok(g) => show(*g, signed),
+            Err(e) => format!("panic({e})"),
+        };
+        OBS.lock().unwrap().push(format!("{op}({a:#x},{b:#x}) got={g} want={w}"));
+    }
+    if ok {
+        return;
+    }
+    match got {
+        Err(e) => {
+            st.panics.fetch_add(1, Ordering::Relaxed);
+            ctx.violation(&format!("C32:ptp-{fam}-panic"), format!("{op}({a:#x}, {b:#x}) panicked ({e}); reference {w}"), format!("{op};{a:x};{b:x}"));
+        }
+        Ok(g) => {
+            let kind = if overflow { "overflow" } else { "wrong" };
+            ctx.violation(&format!("C32:ptp-{fam}-{kind}"), format!("{op}({a:#x}, {b:#x}) = {}, reference {w}", show(g, signed)), format!("{op};{a:x};{b:x}"));
+        }
+    }
+}
+
+fn dur_binary(ctx: &Ctx, st: &St, a: i128, b: i128) {
+    let (da, db) = (dmk(a), dmk(b));
+    let (s, so) = ref_sat_add(a, b);
+    let (d, dof) = ref_sat_sub(a, b);
+    let (au, bu) = (a as u128, b as u128);
+    judge(ctx, st, "dur-add", "dadd", au, bu, common::catch(|| draw(da + db) as u128), s as u128, s as u128, true, so);
+    judge(ctx, st, "dur-add", "dadd_assign", au, bu, common::catch(|| { let mut x = da; x += db; draw(x) as u128 }), s as u128, s as u128, true, so);
+    judge(ctx, st, "dur-sub", "dsub", au, bu, common::catch(|| draw(da - db) as u128), d as u128, d as u128, true, dof);
+    judge(ctx, st, "dur-sub", "dsub_assign", au, bu, common::catch(|| { let mut x = da; x -= db; draw(x) as u128 }), d as u128, d as u128, true, dof);
+    st.evals.fetch_add(1, Ordering::Relaxed);
+    if (da < db) != (a < b) || (da == db) != (a == b) {
+        ctx.violation("C32:ptp-dur-order-wrong", format!("ordering of durations {a} and {b} differs from the integer ordering"), format!("dadd;{au:x};{bu:x}"));
+    }
+}
+
+macro_rules! scalar_case {
+    ($fname:ident, $ty:ty, $tn:expr) => {
+        fn $fname(ctx: &Ctx, st: &St, a: i128, k: $ty) {
+            let ki = k as i128;
+            let d = dmk(a);
+            let (pr, of) = ref_sat_mul(a, ki);
+            let (au, ku) = (a as u128, ki as u128);
+            judge(ctx, st, "dur-mul", concat!("dmul.", $tn), au, ku, common::catch(|| draw(d * k) as u128), pr as u128, pr as u128, true, of);
+            judge(ctx, st, "dur-mul", concat!("dmulr.", $tn), au, ku, common::catch(|| draw(k * d) as u128), pr as u128, pr as u128, true, of);
+            judge(ctx, st, "dur-mul", concat!("dmul_assign.", $tn), au, ku, common::catch(|| { let mut x = d; x *= k; draw(x) as u128 }), pr as u128, pr as u128, true, of);
+            if ki != 0 {
+                let (lo, hi, qof) = ref_quot(a, ki);
+                judge(ctx, st, "dur-div", concat!("ddiv.", $tn), au, ku, common::catch(|| draw(d / k) as u128), lo as u128, hi as u128, true, qof);
+            }
+        }
+    };
+}
+scalar_case!(scal_i8, i8, "i8");
+scalar_case!(scal_u8, u8, "u8");
+scalar_case!(scal_i16, i16, "i16");
+scalar_case!(scal_u16, u16, "u16");
+scalar_case!(scal_i32, i32, "i32");
+scalar_case!(scal_u32, u32, "u32");
+scalar_case!(scal_i64, i64, "i64");
+scalar_case!(scal_u64, u64, "u64");
+
+fn ts_pair(ctx: &Ctx, st: &St, t: u128, u: u128) {
+    let (tt, tu) = (tmk(t), tmk(u));
+    let want = ref_shortest(t, u);
+    if want < 0 {
+        st.neg_diff.fetch_add(1, Ordering::Relaxed);
+    } else if want > 0 {
+        st.pos_diff.fetch_add(1, Ordering::Relaxed);
+    }
+    if want != 0 && (want > 0) != (u > t) {
+        st.era_cross.fetch_add(1, Ordering::Relaxed);
+    }
+    judge(ctx, st, "ts-sub", "tsub", t, u, common::catch(|| draw(tu - tt) as u128), want as u128, want as u128, true, false);
+    judge(ctx, st, "ts-roundtrip", "troundtrip", t, u, common::catch(|| traw(tt + (tu - tt))), u, u, false, false);
+    judge(ctx, st, "ts-roundtrip", "troundtrip_sub", t, u, common::catch(|| traw(tu - (tu - tt))), t, t, false, false);
+    st.evals.fetch_add(1, Ordering::Relaxed);
+    if (tt == tu) != (t == u) {
+        ctx.violation("C32:ptp-ts-eq-wrong", format!("timestamps {t:#x} / {u:#x}: equality differs from the integer equality"), format!("tsub;{t:x};{u:x}"));
+    }
+}
+
+fn ts_dur(ctx: &Ctx, st: &St, t: u128, d: i128) {
+    let (tt, dd) = (tmk(t), dmk(d));
+    let plus = ref_ts_add(t, d);
+    let minus = ref_ts_sub(t, d);
+    let wp = (d >= 0 && plus < t) || (d < 0 && plus > t);
+    let wm = (d >= 0 && minus > t) || (d < 0 && minus < t);
+    let du = d as u128;
+    judge(ctx, st, "ts-add", "tadd", t, du, common::catch(|| traw(tt + dd)), plus, plus, false, wp);
+    judge(ctx, st, "ts-add", "tadd_assign", t, du, common::catch(|| { let mut x = tt; x += dd; traw(x) }), plus, plus, false, wp);
+    judge(ctx, st, "ts-subdur", "tsubd", t, du, common::catch(|| traw(tt - dd)), minus, minus, false, wm);
+    judge(ctx, st, "ts-subdur", "tsubd_assign", t, du, common::catch(|| { let mut x = tt; x -= dd; traw(x) }), minus, minus, false, wm);
+}
+
+fn utc_spot(ctx: &Ctx, st: &St, t: u128, u: u128) {
+    // the UTC instantiation shares the generic code; spot check it is the same arithmetic
+    let (tt, tu) = (tmk_utc(t), tmk_utc(u));
+    let want = ref_shortest(t, u);
+    judge(ctx, st, "ts-sub", "tsub_utc", t, u, common::catch(|| draw(tu - tt) as u128), want as u128, want as u128, true, false);
+    judge(ctx, st, "ts-roundtrip", "troundtrip_utc", t, u, common::catch(|| traw(tt + (tu - tt))), u, u, false, false);
+}
+
+#[derive(Default)]
+struct FStat {
+    sat_max: AtomicU64,
+    sat_min: AtomicU64,
+    inrange: AtomicU64,
+    tiny: AtomicU64,
+}
+
+fn from_f64_case(ctx: &Ctx, st: &St, fs: &FStat, x: f64) {
+    st.evals.fetch_add(1, Ordering::Relaxed);
+    let tr = format!("dfromsec;{:x};0", x.to_bits());
+    let got = match common::catch(|| draw(Duration::from_f64_seconds(x))) {
+        Ok(g) => g,
+        Err(e) => {
+            ctx.violation("C32:ptp-from-seconds-panic", format!("from_f64_seconds({x:e}) panicked: {e}"), tr);
+            return;
+        }
+    };
+    if RECORD.load(Ordering::Relaxed) {
+        OBS.lock().unwrap().push(format!("from_f64_seconds({x:e}) = {got}"));
+    }
+    if (x > 0.0 && got < 0) || (x < 0.0 && got > 0) {
+        ctx.violation("C32:ptp-from-seconds-sign", format!("from_f64_seconds({x:e}) = {got}: sign not preserved"), tr.clone());
+    }
+    let two64 = 18446744073709551616.0f64;
+    let two127 = 170141183460469231731687303715884105728.0f64;
+    let scaled = x * two64; // exact unless it overflows to infinity
+    if scaled >= two127 {
+        fs.sat_max.fetch_add(1, Ordering::Relaxed);
+        if got != i128::MAX {
+            ctx.violation("C32:ptp-from-seconds-saturation", format!("from_f64_seconds({x:e}) = {got}, must saturate to the maximum"), tr);
+        }
+    } else if scaled <= -two127 {
+        fs.sat_min.fetch_add(1, Ordering::Relaxed);
+        if got != i128::MIN {
+            ctx.violation("C32:ptp-from-seconds-saturation", format!("from_f64_seconds({x:e}) = {got}, must saturate to the minimum"), tr);
+        }
+    } else {
+        if scaled.abs() < 1.0 {
+            fs.tiny.fetch_add(1, Ordering::Relaxed);
+        } else {
+            fs.inrange.fetch_add(1, Ordering::Relaxed);
+        }
+        let err = (got as f64 - scaled).abs();
+        if err > scaled.abs() * 1e-9 + 2.0 {
+            ctx.violation("C32:ptp-from-seconds-inexact", format!("from_f64_seconds({x:e}) = {got}, exact {scaled:e} units (off by {err:e})"), tr);
+        }
+    }
+}
+
+fn dur_seconds(ctx: &Ctx, st: &St, a: i128) {
+    st.evals.fetch_add(2, Ordering::Relaxed);
+    let d = dmk(a);
+    let tr = format!("dtosec;{:x};0", a as u128);
+    let x = match common::catch(|| d.as_seconds()) {
+        Ok(x) => x,
+        Err(e) => {
+            ctx.violation("C32:ptp-to-seconds-panic", format!("as_seconds({a}) panicked: {e}"), tr);
+            return;
+        }
+    };
+    let two64 = 18446744073709551616.0f64;
+    let exact = a as f64 / two64;
+    if RECORD.load(Ordering::Relaxed) {
+        OBS.lock().unwrap().push(format!("as_seconds({a}) = {x:e}"));
+    }
+    if !x.is_finite() || (x - exact).abs() > exact.abs() * 1e-9 + 1.0 / two64 || (x != 0.0 && a != 0 && (x < 0.0) != (a < 0)) {
+        ctx.violation("C32:ptp-to-seconds-wrong", format!("as_seconds({a}) = {x:e}, exact {exact:e}"), tr.clone());
+    }
+    let back = match common::catch(|| draw(Duration::from_f64_seconds(x))) {
+        Ok(b) => b,
+        Err(e) => {
+            ctx.violation("C32:ptp-from-seconds-panic", format!("from_f64_seconds(as_seconds({a})) panicked: {e}"), tr);
+            return;
+        }
+    };
+    if RECORD.load(Ordering::Relaxed) {
+        OBS.lock().unwrap().push(format!("from_f64_seconds(as_seconds({a})) = {back}"));
+    }
+    // |back - a| < |a| * 1e-9 + 1  <=>  (|delta| - 1) * 1e9 < |a|   (u128 magnitudes, checked)
+    let delta = if back >= a { (back as u128).wrapping_sub(a as u128) } else { (a as u128).wrapping_sub(back as u128) };
+    let bad = if delta <= 1 {
+        delta == 1 && a == 0
+    } else {
+        match (delta - 1).checked_mul(1_000_000_000) {
+            Some(v) => v >= a.unsigned_abs(),
+            None => true,
+        }
+    };
+    if bad {
+        ctx.violation("C32:ptp-seconds-roundtrip", format!("duration {a} -> {x:e} s -> {back}: changed by {delta} units, allowed < |d|*1e-9 + 1"), tr);
+    }
+}
+
+fn constructors(ctx: &Ctx, st: &St) {
+    let mut nanos_out_of_contract_wraps = 0u64;
+    for s in [0i64, 1, -1, 37, -37, 1_700_000_000, i64::MAX, i64::MAX - 1, i64::MIN, i64::MIN + 1, 1 << 32, -(1 << 32)] {
+        for n in [0u32, 1, 2, 499_999_999, 500_000_000, 500_000_001, 999_999_998, 999_999_999] {
+            let want = ((s as i128) << 64) + ((n as i128) << 64) / 1_000_000_000;
+            judge(ctx, st, "dur-from-secnanos", "dsecnanos", s as i128 as u128, n as u128, common::catch(|| draw(Duration::from_seconds_nanos(s, n)) as u128), want as u128, want as u128, true, false);
+        }
+        for n in [1_000_000_000u32, 2_000_000_000, u32::MAX] {
+            // more than a second of nanoseconds: outside the documented use; no panic, count wraps
+            st.evals.fetch_add(1, Ordering::Relaxed);
+            match common::catch(|| draw(Duration::from_seconds_nanos(s, n))) {
+                Ok(g) => {
+                    if s > 0 && g < 0 {
+                        nanos_out_of_contract_wraps += 1;
+                    }
+                }
+                Err(e) => ctx.violation("C32:ptp-dur-from-secnanos-panic", format!("from_seconds_nanos({s}, {n}) panicked: {e}"), format!("dsecnanos;{:x};{:x}", s as i128 as u128, n)),
+            }
+        }
+    }
+    ctx.set("obs_from_seconds_nanos_over_1e9_wraps_negative", nanos_out_of_contract_wraps);
+    for s in [0u64, 1, 37, 1_700_000_000, u64::MAX, u64::MAX - 1, 1 << 63, (1 << 63) - 1, 1 << 32] {
+        for n in [0u32, 1, 2, 499_999_999, 500_000_000, 999_999_999] {
+            let want = ((s as u128) << 64) + ((n as u128) << 64) / 1_000_000_000;
+            judge(ctx, st, "ts-from-secnanos", "tsecnanos", s as u128, n as u128,
+                common::catch(|| traw(Timestamp::<TAI>::from_seconds_nanos_since_unix_epoch(s, n))), want, want, false, false);
+        }
+    }
+    st.evals.fetch_add(2, Ordering::Relaxed);
+    if draw(Duration::ZERO) != 0 || traw(Timestamp::<UTC>::UNIX_EPOCH) != 0 {
+        ctx.violation("C32:ptp-constants-wrong", "Duration::ZERO / UNIX_EPOCH are not zero", "dsecnanos;0;0");
+    }
+}
+
+// ---------------------------------------------------------------------------------
+
+fn run_one(ctx: &Ctx, st: &St, trace: &str) {
+    let parts: Vec<&str> = trace.split(';').collect();
+    let op = parts.first().copied().unwrap_or("");
+    let a: u128 = parts.get(1).and_then(|s| u128::from_str_radix(s, 16).ok()).unwrap_or(0);
+    let b: u128 = parts.get(2).and_then(|s| u128::from_str_radix(s, 16).ok()).unwrap_or(0);
+    let (base, ty) = op.split_once('.').unwrap_or((op, ""));
+    match base {
+        "dadd" | "dadd_assign" | "dsub" | "dsub_assign" => dur_binary(ctx, st, a as i128, b as i128),
+        "dmul" | "dmulr" | "dmul_assign" | "ddiv" => {
+            let k = b as i128;
+            match ty {
+                "i8" => scal_i8(ctx, st, a as i128, k as i8),
+                "u8" => scal_u8(ctx, st, a as i128, k as u8),
+                "i16" => scal_i16(ctx, st, a as i128, k as i16),
+                "u16" => scal_u16(ctx, st, a as i128, k as u16),
+                "i32" => scal_i32(ctx, st, a as i128, k as i32),
+                "u32" => scal_u32(ctx, st, a as i128, k as u32),
+                "i64" => scal_i64(ctx, st, a as i128, k as i64),
+                "u64" => scal_u64(ctx, st, a as i128, k as u64),
+                _ => {}
+            }
+        }
+        "tsub" | "troundtrip" | "troundtrip_sub" => ts_pair(ctx, st, a, b),
+        "tsub_utc" | "troundtrip_utc" => utc_spot(ctx, st, a, b),
+        "tadd" | "tadd_assign" | "tsubd" | "tsubd_assign" => ts_dur(ctx, st, a, b as i128),
+        "dfromsec" => from_f64_case(ctx, st, &FStat::default(), f64::from_bits(a as u64)),
+        "dtosec" => dur_seconds(ctx, st, a as i128),
+        "dsecnanos" | "tsecnanos" => constructors(ctx, st),
+        _ => OBS.lock().unwrap().push(format!("unknown trace {trace:?}")),
+    }
+}
+
+fn replay(ctx: &Ctx, trace: &str) -> String {
+    OBS.lock().unwrap().clear();
+    RECORD.store(true, Ordering::Relaxed);
+    let st = St::default();
+    run_one(ctx, &st, trace);
+    RECORD.store(false, Ordering::Relaxed);
+    let obs = OBS.lock().unwrap().join(" | ");
+    format!("{obs} | violations_so_far={}", ctx.violation_count() > 0)
+}
+
+#[test]
+fn check() {
+    let ctx = Ctx::new("C32");
+    if let Some(t) = common::replay_trace() {
+        let a = replay(&ctx, &t);
+        let b = replay(&ctx, &t);
+        common::report_replay("C32", &a, &b, ctx.violation_count() > 0);
+        return;
+    }
+    ctx.rule(
+        "PTP types: boundary sets B_i128 (every +-2^k, +-(2^k +- 1), MIN, MIN+1, MAX, ...) and B_u128 (2^k, 2^k +- 1, 2^128 - 2^k, era midpoint +- 2): \
+         timestamps B_u128 x B_u128 (u - t, t + (u - t), u - (u - t)) and B_u128 x B_i128 (t + d, t - d, +=, -=); durations B_i128 x B_i128 (+, -, +=, -=, order) \
+         and B_i128 x scalars (all i8, all u8, boundary i16/u16/i32/u32/i64/u64) for d*k, k*d, *=, d/k (k != 0); ~13k finite f64 for from_f64_seconds; \
+         B_i128 for as_seconds and the round trip. Distinct & non-trivial = a case needing saturation / wrapping / era crossing, or a float case.",
+    );
+    ctx.assume("division by zero is undefined and excluded");
+    ctx.assume("Duration / Timestamp are single-field wrappers of a 128-bit integer (inputs written by transmute, every one read back through Hash before use)");
+    let st = St::default();
+    let bi = b_i128();
+    let bu = b_u128();
+    let bf = b_f64();
+    ctx.set("b_i128", bi.len() as u64);
+    ctx.set("b_u128", bu.len() as u64);
+    ctx.set("b_f64", bf.len() as u64);
+    let n = bi.len() as u64;
+    common::par_for(n, 4, |i| {
+        let a = bi[i as usize];
+        dur_seconds(&ctx, &st, a);
+        let mut hs = Vec::new();
+        for &b in &bi {
+            dur_binary(&ctx, &st, a, b);
+            if ref_sat_add(a, b).1 || ref_sat_sub(a, b).1 {
+                hs.push(common::hash_of(&("dd", a, b)));
+            }
+        }
+        ctx.distinct_many(hs);
+    });
+    let s_i16 = scal_signed(16);
+    let s_i32 = scal_signed(32);
+    let s_i64 = scal_signed(64);
+    let s_u16 = scal_unsigned(16);
+    let s_u32 = scal_unsigned(32);
+    let s_u64 = scal_unsigned(64);
+    ctx.set("scalars_per_duration", (512 + s_i16.len() + s_i32.len() + s_i64.len() + s_u16.len() + s_u32.len() + s_u64.len()) as u64);
+    common::par_for(n, 4, |i| {
+        let a = bi[i as usize];
+        let mut hs = Vec::new();
+        let mut note = |k: i128, tag: &str| {
+            if ref_sat_mul(a, k).1 || (a == i128::MIN && k == -1) {
+                hs.push(common::hash_of(&(tag, a, k)));
+            }
+        };
+        for k in i8::MIN..=i8::MAX {
+            scal_i8(&ctx, &st, a, k);
+            note(k as i128, "i8");
+        }
+        for k in 0..=u8::MAX {
+            scal_u8(&ctx, &st, a, k);
+            note(k as i128, "u8");
+        }
+        for &k in &s_i16 {
+            scal_i16(&ctx, &st, a, k as i16);
+            note(k, "i16");
+        }
+        for &k in &s_u16 {
+            scal_u16(&ctx, &st, a, k as u16);
+            note(k, "u16");
+        }
+        for &k in &s_i32 {
+            scal_i32(&ctx, &st, a, k as i32);
+            note(k, "i32");
+        }
+        for &k in &s_u32 {
+            scal_u32(&ctx, &st, a, k as u32);
+            note(k, "u32");
+        }
+        for &k in &s_i64 {
+            scal_i64(&ctx, &st, a, k as i64);
+            note(k, "i64");
+        }
+        for &k in &s_u64 {
+            scal_u64(&ctx, &st, a, k as u64);
+            note(k, "u64");
+        }
+        ctx.distinct_many(hs);
+    });
+    let m = bu.len() as u64;
+    common::par_for(m, 4, |i| {
+        let t = bu[i as usize];
+        let mut hs = Vec::new();
+        for &u in &bu {
+            ts_pair(&ctx, &st, t, u);
+            let w = ref_shortest(t, u);
+            if w != 0 && (w > 0) != (u > t) {
+                hs.push(common::hash_of(&("tt", t, u)));
+            }
+        }
+        for &d in &bi {
+            ts_dur(&ctx, &st, t, d);
+            let pl = ref_ts_add(t, d);
+            if (d >= 0 && pl < t) || (d < 0 && pl > t) {
+                hs.push(common::hash_of(&("td", t, d)));
+            }
+        }
+        if i % 7 == 0 {
+            for &u in &bu {
+                utc_spot(&ctx, &st, t, u);
+            }
+        }
+        ctx.distinct_many(hs);
+    });
+    let fs = FStat::default();
+    common::par_for(bf.len() as u64, 256, |i| from_f64_case(&ctx, &st, &fs, bf[i as usize]));
+    ctx.distinct_many(bf.iter().map(|x| common::hash_of(&("f", x.to_bits()))));
+    ctx.set("from_seconds_saturated_max", fs.sat_max.load(Ordering::Relaxed));
+    ctx.set("from_seconds_saturated_min", fs.sat_min.load(Ordering::Relaxed));
+    ctx.set("from_seconds_in_range", fs.inrange.load(Ordering::Relaxed));
+    ctx.set("from_seconds_below_one_unit", fs.tiny.load(Ordering::Relaxed));
+    constructors(&ctx, &st);
+
+    ctx.set("evaluations", st.evals.load(Ordering::Relaxed));
+    ctx.set("outcome_exact", st.exact.load(Ordering::Relaxed));
+    ctx.set("outcome_needs_saturation_or_wrap", st.saturated.load(Ordering::Relaxed));
+    ctx.set("outcome_panicked", st.panics.load(Ordering::Relaxed));
+    ctx.set("ts_diff_negative", st.neg_diff.load(Ordering::Relaxed));
+    ctx.set("ts_diff_positive", st.pos_diff.load(Ordering::Relaxed));
+    ctx.set("ts_diff_across_era_boundary", st.era_cross.load(Ordering::Relaxed));
+    ctx.sample(format!("Timestamp(2^128-1) -> Timestamp(1): difference {}", draw(tmk(1) - tmk(u128::MAX))));
+    ctx.sample(format!("Duration(MAX) + Duration(1) = {}", draw(dmk(i128::MAX) + dmk(1))));
+    ctx.sample(format!("Duration(MIN) / -1i8 = {:?}", common::catch(|| draw(dmk(i128::MIN) / -1i8))));
+    ctx.sample(format!("Duration(MIN) * -1i64 = {:?}", common::catch(|| draw(dmk(i128::MIN) * -1i64))));
+    ctx.sample(format!("from_f64_seconds(1e40) = {}", draw(Duration::from_f64_seconds(1e40))));
+    ctx.sample(format!("from_f64_seconds(-1e-25) = {}", draw(Duration::from_f64_seconds(-1e-25))));
+    ctx.exhaustive(true);
+    ctx.finish();
+}
